@@ -63,10 +63,15 @@ func readDirectives(dir string) ([]*Directive, []string, error) {
 		for sc.Scan() {
 			ln++
 			l := strings.TrimSpace(sc.Text())
-			if !strings.HasPrefix(l, "//@ ") {
+			switch { // gofmt rewrites "//@" to "// @" inside doc comments: both spellings are directives
+			case strings.HasPrefix(l, "//@ "):
+				l = l[4:]
+			case strings.HasPrefix(l, "// @ "):
+				l = l[5:]
+			default:
 				continue
 			}
-			fs := strings.Fields(l[4:])
+			fs := strings.Fields(l)
 			if len(fs) < 2 {
 				fh.Close()
 				return nil, nil, fmt.Errorf("%s:%d: malformed directive", fn, ln)
